@@ -19,16 +19,16 @@ from typing import Any, Dict, List, Optional, Tuple
 from ..core import Ctx, enc
 
 THEOREMS = [
-    "Lineno.extractLinenum_shift", "Lineno.extractLinenum_eq", "Lineno.cleaned_line_origin",
+    "Lineno.extractLinenum_shift", "Lineno.extractLinenum_eq", "Lineno.cleaned_line_origin", "Lineno.dropped_eq",
     "Lineno.docstring_lineno_correct_partial", "Lineno.docstring_lineno_correct_counterexample",
     "Lineno.offset_correct_epytext_error", "Lineno.offset_correct_epytext_field",
     "Lineno.offset_correct_epytext_xref", "Lineno.offset_correct_rst_field", "Lineno.offset_correct_rst_xref",
     "Lineno.offset_rst_markup_error_plus_one",
     "Lineno.reported_line_correct_epytext_error_partial", "Lineno.reported_line_correct_field_partial",
     "Lineno.reported_line_correct_epytext_xref_partial", "Lineno.reported_line_correct_rst_xref_partial",
-    "Lineno.reported_line_correct_rst_error_partial", "Lineno.reported_line_correct_rst_error_counterexample",
-    "Lineno.reported_line_correct_counterexample",
-    "Lineno.shift",
+    "Lineno.reported_line_correct_rst_error_partial", "Lineno.reported_line_rst_error_plus_one",
+    "Lineno.reported_line_correct_rst_error_counterexample", "Lineno.reported_line_correct_counterexample",
+    "Lineno.shift", "Lineno.report_shift",
     "Lineno.converted_formats_in_range_partial", "Lineno.converted_formats_in_range_counterexample",
     "Lineno.every_report_counted", "Lineno.printed_is_counted", "Lineno.reachable_parse_errors_counted",
     "Lineno.exit_status_raw", "Lineno.exit_status",
@@ -499,9 +499,9 @@ def run(ctx: Ctx) -> None:
 
     # ---- plan: every (owner, layout cell, depth, fmt) at least once
     cells = layout_cells()
-    grid = [(o, c, d, f) for f in FMTS for o in OWNERS for c in cells for d in (0, 1, 2)]
+    grid = [(o, c, d, f) for f in FMTS for o in OWNERS for c in cells for d in (0, 1, 2)] * 3
     rng.shuffle(grid)
-    extra = (0 if ctx.quick else 6000)
+    extra = (0 if ctx.quick else 14000)
     grid += [(rng.choice(OWNERS), rng.choice(cells), rng.randrange(3), rng.choice("erngre")) for _ in range(extra)]
     byfmt: Dict[str, List[Any]] = {f: [] for f in FMTS}
     for o, c, d, f in grid:
@@ -743,9 +743,11 @@ def oracle_exit(ctx: Ctx, inp, mod, res, entries, wae: bool) -> None:
     nreports = len(stdout_reports(res["stdout"]))
     bad = any(k.startswith("E") for _, k in stdout_reports(res["stdout"]))
     rc = res["rc"]
+    counted_msgs = [e["msg"][:120] for e in res["log"] if e["t"] == "m" and e["counted"]]
     if wae:
         if (rc == 3) != (nreports > 0):
-            ctx.fail("exit:W:%s-with-%s-reports" % (rc, "some" if nreports else "no"), inp,
+            ctx.fail("exit:W:%s-with-%s-reports" % (rc, "some" if nreports else "no"),
+                     {**inp, "counted_messages": counted_msgs[:5], "stdout_tail": res["stdout"][-400:]},
                      f"--warnings-as-errors: exit status {rc} with {nreports} reported problems")
     else:
         want = 2 if bad else 0
